@@ -184,6 +184,24 @@ Fixpoint consec (a b : list term) : list (term * term) :=
   | _, _ => []
   end.
 
+Fixpoint consec_tasks (ts : list tinfo) : list (tinfo * tinfo) :=
+  match ts with
+  | x :: ((y :: _) as r) => (x, y) :: consec_tasks r
+  | _ => []
+  end.
+
+(* ScheduleNTasksInTimeIntervals: the Booleans of task number ti, and the assertions of one task *)
+Definition sn_bools (c : nat) (ni ti : nat) : list form :=
+  map (fun j => FB (BAux (OwCons c) (ti * ni + j)%nat)) (seq 0 ni).
+Definition sn_inside (t : tinfo) (lo hi : Z) : form :=
+  FAnd [FGe (S_ t) (TC lo); FLe (E_ t) (TC hi);
+        FNot (FAnd [FLt (S_ t) (TC lo); FGt (E_ t) (TC lo)]);
+        FNot (FAnd [FLt (S_ t) (TC hi); FGt (E_ t) (TC hi)]);
+        FNot (FAnd [FLt (S_ t) (TC lo); FGt (E_ t) (TC hi)])].
+Definition sn_task (c : nat) (ivs : list (Z * Z)) (ti : nat) (t : tinfo) : list form :=
+  map (fun '(b, (lo, hi)) => FImp b (sn_inside t lo hi)) (combine (sn_bools c (length ivs) ti) ivs)
+  ++ [FPbLe (sn_bools c (length ivs) ti) 1].
+
 Definition op_asserts (x : operand opres) : list form :=
   match x with OpC o => or_asserts o | OpRaw f => [f] end.
 (* _constraints_to_list_of_assertions: one formula per operand *)
@@ -358,11 +376,7 @@ Definition enc_raw (c : nat) (e : rcexpr) : list form :=
                   end in
       let body := flat_map (fun t => [FGe (S_ t) gs; FLe (E_ t) ge]) ts in
       let order := match e with
-                   | COGroup _ _ _ k =>
-                       (fix go (l : list tinfo) : list form :=
-                          match l with
-                          | x :: ((y :: _) as r) => prec_rel k (E_ x) (S_ y) :: go r
-                          | _ => [] end) ts
+                   | COGroup _ _ _ k => map (fun '(x, y) => prec_rel k (E_ x) (S_ y)) (consec_tasks ts)
                    | _ => [] end in
       [FAnd (head ++ body ++ order)]
   | CForceSched t b => [FIff (sched_f t) (if b then FT else FF)]
@@ -370,18 +384,9 @@ Definition enc_raw (c : nat) (e : rcexpr) : list form :=
   | CDependency a b => [FIff (sched_f a) (sched_f b)]
   | CForceN ts n k => [pb k (map sched_f ts) n]
   | CScheduleN ts n ivs k =>
-      let ni := length ivs in
-      let per_task := fun (ti : nat) (t : tinfo) =>
-        let bools := map (fun j => FB (BAux (OwCons c) (ti * ni + j)%nat)) (seq 0 ni) in
-        map (fun '(b, (lo, hi)) =>
-               FImp b (FAnd [FGe (S_ t) (TC lo); FLe (E_ t) (TC hi);
-                             FNot (FAnd [FLt (S_ t) (TC lo); FGt (E_ t) (TC lo)]);
-                             FNot (FAnd [FLt (S_ t) (TC hi); FGt (E_ t) (TC hi)]);
-                             FNot (FAnd [FLt (S_ t) (TC lo); FGt (E_ t) (TC hi)])]))
-            (combine bools ivs)
-        ++ [FPbLe bools 1] in
-      flat_map (fun '(ti, t) => per_task ti t) (combine (seq 0 (length ts)) ts)
-      ++ [pb k (map (fun j => FB (BAux (OwCons c) j)) (seq 0 (length ts * ni))) n]
+      let idx := combine (seq 0 (length ts)) ts in
+      flat_map (fun '(ti, t) => sn_task c ivs ti t) idx
+      ++ [pb k (flat_map (fun '(ti, _) => sn_bools c (length ivs) ti) idx) n]
   | CExpr f => [f]
   | CForceApplyN cs n k => [pb k (map (fun o => FB (BApplied (or_id o))) cs) n]
   | CNot x => [FNot (FAnd (op_asserts x))]
